@@ -256,7 +256,11 @@ func (w *c17World) opFailedNew() {
 	src, dst := append([]byte{0xfd, 0x11}, randBytes(c, 14)...), append([]byte{0xfd, 0x22}, randBytes(c, 14)...)
 	var sb, msg, apx []byte
 	msg = randBytes(c, 20)
-	switch c.Rng.IntN(4) {
+	switch c.Rng.IntN(6) {
+	case 4:
+		msg = randBytes(c, 65600+c.Rng.IntN(200)) // around the largest pooled buffer
+	case 5:
+		msg = randBytes(c, 70000+c.Rng.IntN(60000)) // beyond every pooled buffer
 	case 0:
 		msg = randBytes(c, 10001+c.Rng.IntN(50))
 	case 1:
@@ -280,6 +284,33 @@ func (w *c17World) opFailedNew() {
 	if err == nil {
 		// accepted after all (limits are the implementation's): treat as a live frame that is released at once
 		f.ReturnToPool()
+		return
+	}
+	w.desc = append(w.desc, desc)
+	w.othersUnchanged(before, -1, desc)
+}
+
+// opFailedReply: a reply that fits no pooled buffer is refused; the frame it was asked of is
+// untouched (it still is the frame it was, in the buffer it had) and can be released normally.
+func (w *c17World) opFailedReply() {
+	c := w.c
+	lf := w.pickLive()
+	if lf == nil {
+		return
+	}
+	w.b.SetFrameMargins(12, 16)
+	before := w.observeAll()
+	var err error
+	pan, _ := recoverPanic(func() { err = lf.f.Reply(nil, randBytes(c, 66000+c.Rng.IntN(4000)), nil) })
+	desc := fmt.Sprintf("FailedReply(#%d)", lf.id)
+	if pan {
+		w.violate("Reply panicked on an oversized message: "+desc, "reply-panic")
+		w.removeLive(lf)
+		return
+	}
+	if err == nil {
+		w.violate("Reply accepted a message that fits no pooled buffer: "+desc, "reply-oversized-accepted")
+		w.removeLive(lf)
 		return
 	}
 	w.desc = append(w.desc, desc)
@@ -545,6 +576,11 @@ func runC17(c *Ctx) error {
 				cloned = true
 				c.Count("op:clone")
 			case r < 62:
+				if c.Rng.IntN(4) == 0 {
+					w.opFailedReply()
+					c.Count("op:failed-reply")
+					break
+				}
 				w.opReply()
 				c.Count("op:reply")
 			case r < 78:
